@@ -598,3 +598,22 @@ def correspondence(ctx):
 TRUSTED = TRUSTED + [
     "translator tie for the helpers: harness/translate_tzhelp.py (HelpPy) re-translates datetime_exists, datetime_ambiguous and resolve_imaginary (repaired text) from /repo on every run into Generated/TzHelpKernels.lean; Properties/TzHelpGen.lean proves each equal to the helper model of Model/Zones.lean for every argument form (gen_datetime_exists_eq_model, gen_datetime_ambiguous_eq_model, gen_resolve_imaginary_eq_model) and restates exists_iff / ambiguous_iff / resolve_imaginary_gap / _of_exists about the helpers as written; named primitives (Model/HelpPy.lean), trusted with their documented meaning and exercised by tzhelp.wall on every run: a zone object with identity, datetimes as (wall seconds, fold, tzinfo) without microseconds, CPython's astimezone incl. its identity short-cut (a naive receiver is outside the model), `replace(tzinfo=None)` results tracked statically as naive",
 ]
+
+
+# --- ONE shared tzstr / tzrange object, PEP 495 queries (wt-tzfile, seeded C05K): harness/c05shared.py over builder tzrule's tzshared.py
+_oracle_without_shared_range = oracle
+_replay_without_shared_range = replay
+
+
+def oracle(ctx):
+    _oracle_without_shared_range(ctx)
+    import c05shared
+    c05shared.oracle(ctx)
+
+
+def replay(ctx, payload):
+    c = payload["violation"]["case"]
+    if c.get("kind") in ("history", "threads") and c.get("s") and c.get("zone") in ("tzstr", "tzrange"):
+        from props import c08
+        return c08.replay(ctx, payload)
+    return _replay_without_shared_range(ctx, payload)
